@@ -51,18 +51,16 @@ theorem wf_simpMid {p : Program} (h : WF p) (out : List Instr) : WF (simpMid p o
 
 theorem simplify_eq (p : Program) (out : List Instr) (kF kW kE : List String) :
     simplify p out kF kW kE =
-      { simpMid p out with frames := p.frames.filter (fun f => kF.contains f.key)
+      { simpMid p out with frames := (simpMid p out).frames.filter (fun f => kF.contains f.key)
                            waveforms := (simpMid p out).waveforms.filter (fun w => kW.contains w.key)
                            externs := (simpMid p out).externs.filter (fun x => kE.contains x.key) } := rfl
 
 theorem wf_simplify {p : Program} (h : WF p) (out : List Instr) (kF kW kE : List String) :
     WF (simplify p out kF kW kE) := by
   rw [simplify_eq]
-  apply wf_of_sub2 (wf_simpMid h out) h
+  apply wf_of_sub (wf_simpMid h out)
   intro k
-  cases k
-  case frame => right; simp [Program.container]
-  all_goals (left; simp [Program.container])
+  cases k <;> simp [Program.container]
 
 theorem wf_wrapInLoop {p : Program} (h : WF p) (n : Nat) (hd tl : List Instr) : WF (wrapInLoop p n hd tl) := by
   match n with
